@@ -9,15 +9,16 @@ Variable rules : key -> rule.
 Variable env : key -> N.
 Variable F : key -> N -> list value -> list N -> N -> N.
 Variable rank : key -> nat.
+Variable R : key -> N -> rule.
 Notation cvK := (cvK rules env F rank).
 Notation task_ok2 := (task_ok2 rules env F rank).
-Notation concl := (concl rules F).
-Notation rowok := (rowok rules F).
+Notation concl := (concl F R).
+Notation rowok := (rowok F R).
 Notation cstruct := (cstruct rules).
 Notation BT := (BT rules env F rank).
-Notation BC := (BC rules F).
-Notation BS := (BS rules env F rank).
-Notation BInv := (BInv rules env F rank).
+Notation BC := (BC rules F R).
+Notation BS := (BS rules env F rank R).
+Notation BInv := (BInv rules env F rank R).
 
 (* the task side when no stored result changes and task records change at most in their wait counts and deferred scan requests *)
 Lemma BT_rules_change_gen root s s' : BT root s ->
@@ -80,11 +81,13 @@ Proof. unfold drop_single. rewrite filter_In. split; intros [H1 H2]; split; auto
 
 (* cleanSingleUseDependencies does not touch what a row says *)
 Lemma rowok_drop s s' k : (forall x, stored s' x = stored s x) -> (forall x, cAt s' x = cAt s x) -> bAt s' k = bAt s k ->
-  deps s' k = drop_single (deps s k) -> rowok s k -> rowok s' k.
+  res_sig (res_of s' k) = res_sig (res_of s k) -> deps s' k = drop_single (deps s k) -> rowok s k -> rowok s' k.
 Proof.
-  intros Hst Hca Hb Hd (v & Hv & Ho & Hm & Hc). exists v. split; [now rewrite Hst|]. split; [exact Ho|]. split.
-  - intros d. rewrite Hd. intros Hin. apply in_drop_single in Hin. apply Hm, Hin.
-  - intros Hf. apply (concl_same_gen rules F s s' k v).
+  intros Hst Hca Hb Hsg Hd (v & Hv & Ho & Hm & Hc).
+  assert (Erl : rule_of R s' k = rule_of R s k) by (unfold rule_of; now rewrite Hsg).
+  exists v. split; [now rewrite Hst|]. split; [rewrite Erl; exact Ho|]. split.
+  - intros d. rewrite Hd, Erl. intros Hin. apply in_drop_single in Hin. apply Hm, Hin.
+  - intros Hf. apply (concl_same_gen F R s s' k v Hsg).
     + intros x Hx. split; [rewrite Hd; apply in_drop_single; split; auto|apply Hst].
     + apply Hc. intros d Hin Hor Hsi. rewrite <- Hca, <- Hb. apply Hf; auto. rewrite Hd. apply in_drop_single. auto.
 Qed.
@@ -102,26 +105,25 @@ Lemma BC_kinds s s' : BC s -> is_epoch s' = is_epoch s ->
              (bAt s' k = is_epoch s /\ curk s' k /\ idle s k /\ bAt s k <> 0 /\ cstruct s' k)) ->
   BC s'.
 Proof.
-  intros [C1 C2 C3 C4 C5 C6 C7] He Hst Hca Hdp Hsg Hnc Hid Hc1 Hip Hpd Hb.
+  intros [C1 C2 C3 C4 C6 C7] He Hst Hca Hdp Hsg Hnc Hid Hc1 Hip Hpd Hb.
   constructor.
   - exact Hnc.
   - intros k Hi. rewrite Hca. destruct (Hb k) as [[Eb _]|(Eb & _)]; rewrite Eb; [apply C2; auto|apply C3].
   - intros k. rewrite He, Hca. destruct (Hb k) as [[Eb _]|(Eb & _)]; rewrite Eb; [apply C3|split; [lia|apply C3]].
   - intros k. rewrite He. destruct (Hb k) as [[Eb _]|(Eb & Hk & _)]; [|intros _; apply Hk]. rewrite Eb. intros Hbe.
     assert (Hc : curk s k) by (split; [now apply C4|exact Hbe]). apply (Hc1 k Hc).
-  - intros k. rewrite Hsg. destruct (Hb k) as [[Eb _]|(Eb & _ & _ & Hb0 & _)]; [rewrite Eb; apply C5|intros _; now apply C5].
   - intros k Hi Hb' Hncu. destruct (Hb k) as [[Eb Hcc]|(_ & Hk & _)]; [|contradiction].
     rewrite Eb in Hb'. assert (Hn0 : ~ curk s k) by (intros H; apply Hncu; now apply Hc1).
     destruct (Hdp k) as [Hd|(Hd & _)].
     + pose proof (res_ext s s' k (Hst k) (Hca k) Eb Hd (Hsg k)) as Hr.
-      apply (rowok_step rules F s s' k Hr); [|apply C6; auto].
+      apply (rowok_step F R s s' k Hr); [|apply C6; auto].
       intros d _ _ _. left. rewrite Hst, Hca. split; auto. lia.
     + apply (rowok_drop s s' k); auto.
   - intros k Hc. destruct (Hb k) as [[Eb Hcc]|(_ & _ & _ & _ & Hcs)]; [|exact Hcs].
     destruct (Hdp k) as [Hd|(_ & Hn & _)]; [|contradiction].
-    destruct (C7 k (Hcc Hc)) as (S1 & S2 & S3). unfold cstruct in *. cbn zeta in *.
+    destruct (C7 k (Hcc Hc)) as (S0 & S1 & S2 & S3). unfold cstruct in *. cbn zeta in *.
     assert (Hreq : map (stored s') (r_req (rules k)) = map (stored s) (r_req (rules k))) by (apply map_ext; intros; apply Hst).
-    rewrite Hreq, Hd. split; [|split].
+    rewrite Hreq, Hd, Hsg. split; [exact S0|]. split; [|split].
     + intros y Hy. destruct (S1 y Hy) as [H1 H2]. split; auto.
     + exact S2.
     + intros d Hin. destruct (S3 d Hin) as [Hm Hs']. split; auto. destruct Hs' as [Hcd|(Hdd & [Hp|Hp])]; [left; auto| |].
@@ -135,7 +137,7 @@ Proof. unfold stored, valid. intros ->. reflexivity. Qed.
 (* the scanning side under the same kind of change; new scan requests, newly scanning rules and rules newly found not to need
    to run bring their own facts *)
 Lemma BS_kinds x x' s s' : BS x s -> (forall rq, Sreq s rq -> kind_of s (sq_rule rq) = KScanning) ->
-  (forall k, stored s' k = stored s k) -> (forall k, cAt s' k = cAt s k) ->
+  (forall k, stored s' k = stored s k) -> (forall k, cAt s' k = cAt s k) -> (forall k, res_sig (res_of s' k) = res_sig (res_of s k)) ->
   (forall k, kind_of s k = KScanning \/ kind_of s k = KDoesNotNeedToRun -> deps s' k = deps s k) ->
   (forall k, curk s k -> curk s' k) -> (forall k, kind_of s k = KScanning -> bAt s' k = bAt s k) ->
   (forall rq, Sreq s' rq -> Sreq s rq \/
@@ -146,20 +148,21 @@ Lemma BS_kinds x x' s s' : BS x s -> (forall rq, Sreq s rq -> kind_of s (sq_rule
   (forall k, kind_of s' k = KScanning ->
      (kind_of s k = KScanning /\ (ri_deferred (rinfo_of s k) <> [] \/ ri_paused (rinfo_of s k) <> [] \/ x = Some k ->
                                  ri_deferred (rinfo_of s' k) <> [] \/ ri_paused (rinfo_of s' k) <> [] \/ x' = Some k)) \/
-     (bAt s' k <> 0 /\ valid rules env k (res_of s' k) = true /\ (ri_deferred (rinfo_of s' k) <> [] \/ ri_paused (rinfo_of s' k) <> [] \/ x' = Some k))) ->
+     (res_sig (res_of s' k) = r_sig (rules k) /\ bAt s' k <> 0 /\ valid rules env k (res_of s' k) = true /\ (ri_deferred (rinfo_of s' k) <> [] \/ ri_paused (rinfo_of s' k) <> [] \/ x' = Some k))) ->
   (forall k, kind_of s' k = KDoesNotNeedToRun ->
      (kind_of s k = KDoesNotNeedToRun /\ bAt s' k = bAt s k /\ (pending_for s k -> pending_for s' k)) \/
-     ((exists v, stored s' k = Some v /\ Some v = cvK k /\ concl s' k v) /\ (forall d, In d (deps s' k) -> curk s' (d_key d)) /\ bAt s' k <> 0 /\ pending_for s' k)) ->
+     ((exists v, stored s' k = Some v /\ Some v = cvK k /\ concl s' k v) /\ (forall d, In d (deps s' k) -> curk s' (d_key d)) /\ bAt s' k <> 0 /\ pending_for s' k /\
+      res_sig (res_of s' k) = r_sig (rules k))) ->
   BS x' s'.
 Proof.
-  intros [S1 S2 S3 S4] Hss Hst Hca Hdp Hc1 Hbs Hsr Hsi Hsc Hdn. constructor.
+  intros [S1 S2 S3 S4] Hss Hst Hca Hsgs Hdp Hc1 Hbs Hsr Hsi Hsc Hdn. constructor.
   - intros rq Hrq j d Hj Hn. destruct (Hsr rq Hrq) as [Hold|Hnew]; [|now apply (Hnew j d)].
     rewrite (Hdp _ (or_introl (Hss rq Hold))) in Hn. destruct (S1 rq Hold j d Hj Hn) as [Hc Hf]. split; [now apply Hc1|]. rewrite Hca, (Hbs _ (Hss rq Hold)). exact Hf.
   - intros k Hk. destruct (Hsc k Hk) as [(Hk0 & Hrec)|H]; [|exact H].
-    destruct (S2 k Hk0) as (B1 & B2 & B3). rewrite (Hbs k Hk0), (valid_stored s s' k (Hst k)). auto.
+    destruct (S2 k Hk0) as (B0 & B1 & B2 & B3). rewrite (Hbs k Hk0), (valid_stored s s' k (Hst k)), Hsgs. auto.
   - intros k Hk. destruct (Hdn k Hk) as [(Hk0 & Eb & Hp)|H]; [|exact H].
-    destruct (S3 k Hk0) as ((v & Hv & Hcv & Hco) & Hd & Hb & Hpe). split; [|split; [|split]].
-    + exists v. split; [now rewrite Hst|]. split; auto. apply (concl_same rules F s s' k v (Hdp k (or_intror Hk0))); auto.
+    destruct (S3 k Hk0) as ((v & Hv & Hcv & Hco) & Hd & Hb & Hpe & Hsg0). split; [|split; [|split; [|split]]]; [| | | |now rewrite Hsgs].
+    + exists v. split; [now rewrite Hst|]. split; auto. apply (concl_same F R s s' k v (Hsgs k) (Hdp k (or_intror Hk0))); auto.
     + intros d. rewrite (Hdp k (or_intror Hk0)). intros Hin. now apply Hc1, Hd.
     + now rewrite Eb.
     + now apply Hp.
@@ -168,16 +171,19 @@ Qed.
 
 Hypothesis Hrank : wf_rank rules rank.
 Hypothesis Hwfd : wf_disc rules.
+Hypothesis HRt : table_ok rules R.
 
 (* a valid row all of whose recorded inputs are complete and were not recomputed after it was built holds the clean value *)
-Lemma row_clean s k : (forall y, curk s y -> stored s y = cvK y) -> rowok s k -> valid rules env k (res_of s k) = true ->
+Lemma row_clean s k : (forall y, curk s y -> stored s y = cvK y) -> res_sig (res_of s k) = r_sig (rules k) -> rowok s k ->
+  valid rules env k (res_of s k) = true ->
   (forall d, In d (deps s k) -> curk s (d_key d) /\ (d_order d = false -> cAt s (d_key d) <= bAt s k)) ->
   exists v, stored s k = Some v /\ Some v = cvK k /\ concl s k v.
 Proof.
-  intros HT (v & Hv & Ho & Hm & Hc) Hval Hd.
+  intros HT Hsg (v & Hv & Ho & Hm & Hc) Hval Hd.
+  assert (Erl : rule_of R s k = rules k) by (unfold rule_of; rewrite Hsg; apply HRt).
   assert (Hfr : ImplInc1.fresh s k) by (intros d Hin Hor _; now apply (Hd d Hin)).
   pose proof (Hc Hfr) as Hco. exists v. split; auto. split; auto.
-  destruct Hco as [Hf Hrec]. cbn zeta in Hf, Hrec.
+  destruct Hco as [Hf Hrec]. cbn zeta in Hf, Hrec. rewrite Erl, Hsg in Hf. rewrite Erl in Hrec, Ho.
   assert (Hcl : forall y, In (mkDep y false false) (deps s k) -> stored s y = cvK y).
   { intros y Hy. apply HT. apply (Hd _ Hy). }
   assert (Hreq : map (stored s) (r_req (rules k)) = map cvK (r_req (rules k))).
@@ -203,9 +209,9 @@ Definition scan_outcome (s : istate) (k : key) (b : bool) (ri1 : rinfo) (ts1 : l
   (b = false /\ kind_of s k = KScanning /\ ri1 = rinfo_of s k /\ ts1 = is_toscan s) \/
   (b = true /\ is_scanned s k = false /\ kind_of s k <> KScanning /\ ri1 = ri_with_kind KNeedsToRun rc /\ ts1 = is_toscan s) \/
   (b = true /\ is_scanned s k = false /\ kind_of s k <> KScanning /\ bAt s k <> 0 /\ valid rules env k (res_of s k) = true /\ drop_single (deps s k) = [] /\
-     ri1 = ri_with_kind KDoesNotNeedToRun rc /\ ts1 = is_toscan s) \/
+     res_sig (res_of s k) = r_sig (rules k) /\ ri1 = ri_with_kind KDoesNotNeedToRun rc /\ ts1 = is_toscan s) \/
   (b = false /\ is_scanned s k = false /\ kind_of s k <> KScanning /\ bAt s k <> 0 /\ valid rules env k (res_of s k) = true /\ drop_single (deps s k) <> [] /\
-     ri1 = ri_begin_scan rc /\ ts1 = mkSReq k 0%nat None false false :: is_toscan s).
+     res_sig (res_of s k) = r_sig (rules k) /\ ri1 = ri_begin_scan rc /\ ts1 = mkSReq k 0%nat None false false :: is_toscan s).
 
 Lemma scan_rule_gen s k : ri_cancelled (rinfo_of s k) = false ->
   exists b s1 ri1, scan_rule rules env s k = (b, s1) /\
@@ -241,7 +247,8 @@ Proof.
     - autorewrite with iv. repeat split; auto. right. right. left. repeat split; auto. }
   destruct (N.eqb (res_builtAt (res_of s k)) 0) eqn:Eb; [apply Kneed; auto; unfold s0; now autorewrite with iv|].
   assert (Hc0 : ri_cancelled (rinfo_of s0 k) = false) by (rewrite R0, N.eqb_refl; exact Hnc). rewrite Hc0.
-  destruct (negb (N.eqb (r_sig (rules k)) (res_sig (res_of s k)))); [apply Kneed; auto; unfold s0; now autorewrite with iv|].
+  destruct (N.eqb (r_sig (rules k)) (res_sig (res_of s k))) eqn:Esg; cbn [negb]; [|apply Kneed; auto; unfold s0; now autorewrite with iv].
+  apply N.eqb_eq in Esg. symmetry in Esg.
   destruct (valid rules env k (res_of s k)) eqn:Ev; cbn [negb]; [|apply Kneed; auto; unfold s0; now autorewrite with iv].
   apply N.eqb_neq in Eb.
   destruct (drop_single (deps s k)) as [|d ds] eqn:Ed.
@@ -254,7 +261,7 @@ Proof.
 Qed.
 
 Lemma BS_weaken x s : BS None s -> BS x s.
-Proof. intros [S1 S2 S3 S4]. constructor; auto. intros k Hk. destruct (S2 k Hk) as (B1 & B2 & [B3|[B3|B3]]); [auto|auto|discriminate]. Qed.
+Proof. intros [S1 S2 S3 S4]. constructor; auto. intros k Hk. destruct (S2 k Hk) as (B0 & B1 & B2 & [B3|[B3|B3]]); [auto 6|auto 6|discriminate]. Qed.
 
 Lemma unscanned_not_curk s k : is_scanned s k = false -> kind_of s k <> KScanning ->
   ~ curk s k /\ idle s k /\ (kind_of s k = KIncomplete \/ kind_of s k = KComplete).
@@ -272,8 +279,9 @@ Lemma BInv_rekind root x' su su1 k kd' : BInv root None su -> sreq_scanning su -
   is_scanned su k = false -> kind_of su k <> KScanning ->
   (forall rq, In rq (is_toscan su1) <-> (kd' = KScanning /\ rq = mkSReq k 0%nat None false false) \/ In rq (is_toscan su)) ->
   (kd' = KNeedsToRun \/
-   (kd' = KDoesNotNeedToRun /\ bAt su k <> 0 /\ valid rules env k (res_of su k) = true /\ drop_single (deps su k) = [] /\ pending_for su k) \/
-   (kd' = KScanning /\ bAt su k <> 0 /\ valid rules env k (res_of su k) = true /\ x' = Some k)) ->
+   (kd' = KDoesNotNeedToRun /\ bAt su k <> 0 /\ valid rules env k (res_of su k) = true /\ drop_single (deps su k) = [] /\ pending_for su k /\
+    res_sig (res_of su k) = r_sig (rules k)) \/
+   (kd' = KScanning /\ bAt su k <> 0 /\ valid rules env k (res_of su k) = true /\ x' = Some k /\ res_sig (res_of su k) = r_sig (rules k))) ->
   BInv root x' su1.
 Proof.
   intros (HT & HC & HS) Hss Hnt RI Htk Hi Hf Hft Hu He Hsc Hns Hts Hcase.
@@ -315,17 +323,18 @@ Proof.
     + intros rq H. now apply HU.
     + intros rq H _. now apply HU.
     + rewrite Hi, Hip. destruct (b_root _ _ _ _ _ _ HT) as [H|[(k0 & H)|[H|H]]]; auto; [right; left; exists k0; now rewrite (proj1 (HL k0))|right; right; right; now apply Hcu].
-  - apply (BC_kinds su su1 HC); auto.
+  - assert (Hsgs : forall k', res_sig (res_of su1 k') = res_sig (res_of su k')) by (intros; apply Hall).
+    apply (BC_kinds su su1 HC); auto.
     + intros k'. destruct (N.eq_dec k' k) as [->|E]; [right; split; [exact Hdpk|]; split; [|apply Hba]|left; now apply Hdpo].
       intros H. apply Hcu in H. contradiction.
-    + intros k'. apply Hall.
-    + intros k'. rewrite (proj2 (proj2 (HL k'))). apply (b_nc _ _ _ HC).
+    + intros k'. rewrite (proj2 (proj2 (HL k'))). apply (b_nc _ _ _ _ HC).
     + intros k'. unfold idle. rewrite HK. destruct (N.eqb k' k) eqn:E; auto. apply N.eqb_eq in E. now subst.
     + intros k' H. now apply Hcu.
     + intros k' H. left. now rewrite Hip.
     + intros y (rq & Hu' & H1' & H2'). left. exists rq. split; [now apply HU|auto].
     + intros k'. left. split; auto. intros H. now apply Hcu.
-  - apply (BS_kinds None x' su su1 HS); auto.
+  - assert (Hsgs : forall k', res_sig (res_of su1 k') = res_sig (res_of su k')) by (intros; apply Hall).
+    apply (BS_kinds None x' su su1 HS); auto.
     + intros k' H. now apply Hcu.
     + intros rq [H|[(k0 & H)|(t0 & z & Hz & H)]].
       * apply Hts in H. destruct H as [[_ ->]|H]; [right; intros j d Hj; cbn [sq_index] in Hj; lia|left; now left].
@@ -336,15 +345,15 @@ Proof.
       * left. right. left. exists k0. now rewrite <- (proj1 (proj2 (HL k0))).
       * left. right. right. exists t0, z. now rewrite <- Htask.
     + intros k'. rewrite HK. destruct (N.eqb k' k) eqn:E.
-      * apply N.eqb_eq in E. subst k'. intros ->. right. destruct Hcase as [H|[(H & _)|(_ & B1 & B2 & B3)]]; try discriminate.
-        rewrite Hba, (valid_stored su su1 k (Hst k)). auto.
+      * apply N.eqb_eq in E. subst k'. intros ->. right. destruct Hcase as [H|[(H & _)|(_ & B1 & B2 & B3 & B5)]]; try discriminate.
+        rewrite Hba, (valid_stored su su1 k (Hst k)), Hsgs. auto 6.
       * intros Hk. left. split; auto. destruct (HL k') as (-> & -> & _). intros [H|[H|H]]; auto; discriminate.
     + intros k'. rewrite HK. destruct (N.eqb k' k) eqn:E.
-      * apply N.eqb_eq in E. subst k'. intros ->. right. destruct Hcase as [H|[(_ & B1 & B2 & B3 & B4)|(H & _)]]; try discriminate.
-        assert (Hrow : rowok su1 k) by (apply (rowok_drop su su1 k); auto; apply (b_rows _ _ _ HC); auto).
+      * apply N.eqb_eq in E. subst k'. intros ->. right. destruct Hcase as [H|[(_ & B1 & B2 & B3 & B4 & B5)|(H & _)]]; try discriminate.
+        assert (Hrow : rowok su1 k) by (apply (rowok_drop su su1 k); auto; apply (b_rows _ _ _ _ HC); auto).
         assert (Hcur1 : forall y, curk su1 y -> stored su1 y = cvK y) by (intros y Hy; rewrite Hst; apply (b_cur _ _ _ _ _ _ HT); now apply Hcu).
-        destruct (row_clean su1 k Hcur1 Hrow) as (v & Hv & Hcv & Hco); [now rewrite (valid_stored su su1 k (Hst k))|rewrite Hdpk, B3; intros d []|].
-        split; [|split; [|split]].
+        destruct (row_clean su1 k Hcur1) as (v & Hv & Hcv & Hco); [now rewrite Hsgs|exact Hrow|now rewrite (valid_stored su su1 k (Hst k))|rewrite Hdpk, B3; intros d []|].
+        split; [|split; [|split; [|split]]]; [| | | |now rewrite Hsgs].
         -- exists v. auto.
         -- rewrite Hdpk, B3. intros d [].
         -- now rewrite Hba.
